@@ -33,7 +33,11 @@ def run(ctx):
     bad = [b for b in beh if b["observedCount"] != b["expectedCount"]]
     ctx.note("hazard model: %d schedules, %d of them violate the contract in the model" % (len(beh), len(bad)))
     if ctx.thorough:
-        sel = beh
+        import random
+        rnd = random.Random(ctx.seed)
+        good = [b for b in beh if b["observedCount"] == b["expectedCount"]]
+        # every schedule takes up to ~0.1 s to be declared unrealizable: bound the replay set
+        sel = rnd.sample(bad, min(len(bad), 2500)) + rnd.sample(good, min(len(good), 500))
     else:
         # all model-violating schedules plus a seeded sample of the others
         import random
@@ -45,7 +49,7 @@ def run(ctx):
     ctx.absorb(go)
     # 4. random real runs validated against the contract model
     go2 = ctx.gotest(PKG, "^TestVerif_C17_Contract$", ["c17_test.go"], label="contract",
-                     env={"VERIF_RUNS": ctx.pick(40, 400), "VERIF_MAXTICKS": ctx.pick(24, 80)})
+                     env={"VERIF_RUNS": ctx.pick(40, 400), "VERIF_MAXTICKS": ctx.pick(24, 60)})
     ctx.absorb(go2)
     # 5. several messages with their own contexts on one ticker (TickerMulti)
     gm = ctx.tlc(SPEC, "TickerMulti", cfg="Gen_Multi", workers=1, label="Gen_Multi", dump_trace=False)
@@ -68,7 +72,7 @@ def run(ctx):
         return False
     lr = [b for b in multi if late_reg(b)]
     rest = [b for b in multi if not late_reg(b)]
-    sel_m = multi if ctx.thorough else rnd2.sample(lr, min(len(lr), 150)) + rnd2.sample(rest, min(len(rest), 100))
+    sel_m = rnd2.sample(multi, min(len(multi), 1500)) if ctx.thorough else rnd2.sample(lr, min(len(lr), 150)) + rnd2.sample(rest, min(len(rest), 100))
     go3 = ctx.gotest(PKG, "^TestVerif_C17_Multi$", ["c17_test.go"], inputs={"multi.ndjson": sel_m}, label="multi",
                      timeout=ctx.pick(600, 3000))
     ctx.absorb(go3)
